@@ -23,7 +23,11 @@ class RunawayRun(BaseException):
 class Probe:
     """records activations / schedules of every Loop running while it is installed"""
 
-    def __init__(self, step_bound=400, total_bound=6000, check_clock=True, check_fifo=False):
+    def __init__(self, step_bound=400, total_bound=6000, check_clock=True, check_fifo=False,
+                 light=False):
+        # light: keep no reference to targets / signals (only the livelock counters and the
+        # hooks work) - for runs whose point is *when garbage is reclaimed* (C02)
+        self.light = light
         self.check_fifo = check_fifo
         self.last_idx = {}         # loop -> schedule index of the last activation of this step
         self.step_bound = step_bound
@@ -46,6 +50,17 @@ class Probe:
             raise RunawayRun('more than %d activations' % self.total_bound)
         now = loop.time
         last = self.last_time.get(loop, None)
+        if self.light:
+            if last is None or not self._same(last, now):
+                self.last_time[loop] = now
+                self.in_step[loop] = 0
+            self.in_step[loop] += 1
+            if self.in_step[loop] > self.step_bound:
+                raise Livelock('more than %d activations at time %r' % (self.step_bound, now))
+            self.activations.append((loop, now, loop.turn, None, None))
+            for h in self.hooks:
+                h(loop, target, signal)
+            return self._orig_run(loop, target, signal)
         if last is None or not self._same(last, now):
             if last is not None and self.check_clock:
                 E.prove(GE(now, last), 'clock-monotone',
@@ -95,6 +110,8 @@ class Probe:
         return a is b
 
     def _schedule(self, loop, target, signal=None, *, delay=None, at=None):
+        if self.light:
+            return self._orig_schedule(loop, target, signal, delay=delay, at=at)
         if delay is None and at is None:
             due = loop.time
         elif delay is not None:
@@ -106,6 +123,8 @@ class Probe:
 
     def _interrupt_init(self, sig, *token):
         self._orig_int_init(sig, *token)
+        if self.light:
+            return
         try:
             act = STATE.loop.activity
         except RuntimeError:
